@@ -75,7 +75,12 @@ use std::path::Path;
 pub fn compile_value(input: &[u8], format: Format) -> Result<Vec<u8>, Error> {
     let scope = ScopeRef::new_global(format);
     let value = parse_value_data(input)?.evaluate(scope)?;
-    Ok(value.format(format).to_string().into_bytes())
+    // A line break in a value is written as a space, as in a declaration.
+    Ok(value
+        .format(format)
+        .to_string()
+        .replace('\n', " ")
+        .into_bytes())
 }
 
 /// Parse scss data from a buffer and write css in the given style.
